@@ -127,7 +127,10 @@ pub fn worker_main(engine: &dyn Engine, args: &[String]) -> i32 {
     // the protocol goes to a private duplicate of fd 1; fd 1 itself is pointed at
     // /dev/null so that whatever the system under test prints cannot corrupt it
     // (engines that need the output redirect fd 1 to a memfd around the evaluation)
-    let recycle_mb: u64 = std::env::var("VERIF_RECYCLE_MB").ok().and_then(|s| s.parse().ok()).unwrap_or(700);
+    let recycle_mb: u64 = std::env::var("VERIF_RECYCLE_MB")
+        .ok()
+        .and_then(|s| s.parse().ok())
+        .unwrap_or_else(|| (engine.worker_address_space_mb() / 3).min(700));
     let proto = crate::procio::take_over_stdout();
     let mut out = std::io::BufWriter::new(proto);
     let mut counters: BTreeMap<String, u64> = BTreeMap::new();
